@@ -155,4 +155,369 @@ theorem passDecryptIO_calls (P : Prims) (pw : Bytes) (src : Src) (k : Snk) (hs :
     subst hok
     exact decLoop_ok_ne_nil hpd
 
+/-! ### encrypt side -/
+
+open EncIO in
+/-- a record that was written completely ended with a successful flush (ALL scripts) -/
+theorem writeRecord_true_flushes (k : Snk) (at_ : Nat × Nat) (hdr body : Bytes)
+    (h : (writeRecord k at_ hdr body).1 = true) : 1 ≤ (writeRecord k at_ hdr body).2.flushes := by
+  unfold writeRecord at h ⊢
+  split
+  · rename_i k1 h1; rw [h1] at h; simp at h
+  · rename_i k1 h1
+    rw [h1] at h
+    simp only at h ⊢
+    split
+    · rename_i k2 h2; rw [h2] at h; simp at h
+    · rename_i k2 h2
+      rw [h2] at h
+      simp only at h ⊢
+      have := Snk.flush_true_flushes (k := k2) (k' := k2.flush.2) (Prod.ext h rfl)
+      omega
+
+open EncIO in
+/-- `encrypt_chunks` reports success only after the final record has been flushed (ALL scripts) -/
+theorem encLoopIO_ok_flushes (A : Aead) (key aad : Bytes) (cs : Nat) :
+    ∀ (fuel ctr : Nat) (prev : Bytes) (done : Bool) (s : Src) (k : Snk),
+    (encLoopIO A key aad cs fuel ctr prev done s k).1 = .ok → 1 ≤ (encLoopIO A key aad cs fuel ctr prev done s k).2.2.flushes := by
+  intro fuel
+  induction fuel with
+  | zero => intro _ _ _ _ _ h; simp [encLoopIO] at h
+  | succ fuel ih =>
+    intro ctr prev done s k
+    cases hread : s.read cs with
+    | mk rr s' =>
+      cases rr with
+      | err => rw [encLoopIO_err A key aad cs hread]; simp
+      | interrupted => rw [encLoopIO_int A key aad cs hread]; simp
+      | got r =>
+        by_cases hr : r.length = 0
+        · rw [encLoopIO_last A key aad cs hread hr]
+          cases hw : (recW A key aad ctr true prev s' k).1
+          · simp
+          · intro _
+            exact writeRecord_true_flushes _ _ _ _ hw
+        · cases done with
+          | true => rw [encLoopIO_unexp A key aad cs hread hr]; simp
+          | false =>
+            rw [encLoopIO_more A key aad cs hread hr]
+            cases (recW A key aad ctr false prev s' k).1
+            · simp
+            · simpa using ih (ctr+1) r false s' _
+
+open EncIO in
+theorem encryptChunksIO_ok_flushes (A : Aead) (key aad : Bytes) (cs : Nat) (s : Src) (k : Snk)
+    (h : (encryptChunksIO A key aad cs s k).1 = .ok) : 1 ≤ (encryptChunksIO A key aad cs s k).2.2.flushes := by
+  unfold encryptChunksIO at h ⊢
+  split
+  · rename_i h1; rw [h1] at h; simp at h
+  · rename_i h1; rw [h1] at h; simp at h
+  · rename_i r s' h1
+    rw [h1] at h
+    exact encLoopIO_ok_flushes A key aad cs _ _ _ _ _ _ h
+
+open EncIO in
+/-- header + chunks (the common shape of `key_encrypt` / `pass_encrypt`) as the CLI runs it: fault-free source, benign sink —
+    always succeeds, the output is the pure one for the source's read schedule, and at least one flush happened -/
+theorem htc_calls (A : Aead) (key aad : Bytes) (cs : Nat) (hcs : 0 < cs) (hdr body : Bytes) (src : Src) (k : Snk)
+    (hs : src.faultFree) (hk : k.benign) :
+    (hdrThenChunks A key aad cs hdr body src k).1 = .ok ∧
+    (hdrThenChunks A key aad cs hdr body src k).2.2.out =
+      k.out ++ (hdr ++ body ++ (encryptChunks A key aad (Src.reads cs src)).1) ∧
+    1 ≤ (hdrThenChunks A key aad cs hdr body src k).2.2.flushes := by
+  obtain ⟨h1, h2⟩ := htc_faultFree A key aad cs hdr body hcs src k hs hk
+  rw [encryptChunks_reads] at h1
+  refine ⟨h1, h2, ?_⟩
+  unfold hdrThenChunks at h1 ⊢
+  split
+  · rename_i hw
+    rw [if_pos hw] at h1
+    exact encryptChunksIO_ok_flushes A key aad cs _ _ h1
+  · rename_i hw
+    rw [if_neg hw] at h1
+    simp at h1
+
+/-! ## §B  the world, `deliver`, the shape of the commands -/
+
+namespace Cli
+open Kestrel.Keyring (Str utf8)
+
+theorem World.file_setFile (w : World) (p : Str) (b : Bytes) : (w.setFile p b).file p = some b := by
+  simp [World.file, World.setFile]
+
+theorem World.file_setFile_ne (w : World) {p q : Str} (b : Bytes) (h : q ≠ p) : (w.setFile p b).file q = w.file q := by
+  have hpq : (p == q) = false := by simpa using fun h' => h h'.symm
+  simp only [World.file, World.setFile, List.find?_cons, hpq]
+  congr 1
+  induction w.files with
+  | nil => rfl
+  | cons a l ih =>
+    simp only [List.filter_cons, List.find?_cons]
+    by_cases ha : a.1 = p
+    · have h1 : (a.1 != p) = false := by simp [ha]
+      have h2 : (a.1 == q) = false := by simpa [ha] using fun h' => h h'.symm
+      simp only [h1, h2, Bool.false_eq_true, if_false]
+      exact ih
+    · have h1 : (a.1 != p) = true := by simpa using ha
+      simp only [h1, if_true, List.find?_cons]
+      cases a.1 == q <;> simp [ih]
+
+theorem World.setFile_env (w : World) (p : Str) (b : Bytes) : (w.setFile p b).env = w.env := rfl
+theorem World.setFile_stdin (w : World) (p : Str) (b : Bytes) : (w.setFile p b).stdin = w.stdin := rfl
+
+/-- no call was made on the sink: nothing is delivered and the world is the same object -/
+theorem deliver_init (w : World) (outf : Option Str) : deliver w outf {} = (w, []) := by
+  cases outf <;> rfl
+
+theorem deliver_none (w : World) (k : Snk) : deliver w none k = (w, k.out) := rfl
+
+/-- at least one flush: the output file exists and holds exactly the sink's bytes -/
+theorem deliver_flushed (w : World) (q : Str) (k : Snk) (h : 1 ≤ k.flushes) :
+    deliver w (some q) k = (w.setFile q k.out, []) := by
+  have : (k.flushes == 0) = false := by simp; omega
+  simp [deliver, this]
+
+/-- what `deliver` can do to a named output file: nothing, or create/truncate it with the sink's bytes -/
+theorem deliver_some_cases (w : World) (q : Str) (k : Snk) :
+    (k.log = [] ∧ k.flushes = 0 ∧ deliver w (some q) k = (w, [])) ∨
+    ((k.log ≠ [] ∨ k.flushes ≠ 0) ∧ deliver w (some q) k = (w.setFile q k.out, [])) := by
+  by_cases h : k.log = [] ∧ k.flushes = 0
+  · left; refine ⟨h.1, h.2, ?_⟩; simp [deliver, h.1, h.2]
+  · right
+    refine ⟨by by_cases h1 : k.log = [] <;> simp_all, ?_⟩
+    have : (k.log.isEmpty && k.flushes == 0) = false := by
+      by_cases h1 : k.log = []
+      · have : k.flushes ≠ 0 := fun h2 => h ⟨h1, h2⟩
+        simp [this]
+      · simp [h1]
+    simp [deliver, this]
+
+/-! ### error classes of the preparatory steps -/
+
+theorem openInput_err {w : World} {inf : Option Str} {e : Err} (h : openInput w inf = .error e) : e = .noInput := by
+  unfold openInput at h
+  split at h
+  · split at h <;> simp at h; exact h.symm
+  · simp at h
+
+theorem openKeyring_err {w : World} {kr : Option Str} {e : Err} (h : openKeyring w kr = .error e) :
+    e = .noKeyring ∨ e = .keyringRead ∨ e = .keyringUtf8 ∨ e = .keyringParse := by
+  unfold openKeyring at h
+  simp only at h
+  split at h
+  · simp at h; simp [← h]
+  · split at h
+    · simp at h; simp [← h]
+    · split at h
+      · simp at h; simp [← h]
+      · split at h
+        · simp at h; simp [← h]
+        · simp at h
+
+theorem askPass_err {w : World} {b : Bool} {v : String} {e : Err} (h : askPass w b v = .error e) : e = .noPassword := by
+  unfold askPass at h
+  split at h
+  · split at h <;> simp at h; exact h.symm
+  · simp at h; exact h.symm
+
+theorem unlockNamed_err {w : World} {ks : List Keyring.Key} {name : Str} {b : Bool} {e : Err}
+    (h : unlockNamed w ks name b = .error e) :
+    e = .keyNotFound ∨ e = .pkDecode ∨ e = .noPrivateKey ∨ e = .noPassword ∨ e = .unlockFailed := by
+  unfold unlockNamed at h
+  split at h
+  · simp at h; simp [← h]
+  · split at h
+    · simp at h; simp [← h]
+    · split at h
+      · simp at h; simp [← h]
+      · split at h
+        · rename_i e' hp
+          simp at h; subst h
+          simp [askPass_err hp]
+        · split at h
+          · simp at h; simp [← h]
+          · simp at h
+
+/-- the failure causes of `decrypt` / `encrypt` that are decided before the cryptographic call -/
+def earlyCauses : List Err :=
+  [.sameFile, .noInput, .noKeyring, .keyringRead, .keyringUtf8, .keyringParse, .keyNotFound, .pkDecode,
+   .noPrivateKey, .noPassword, .unlockFailed]
+
+/-- the sender line -/
+def senderOf (ks : List Keyring.Key) : Option Bytes → Option (Sum Str Str)
+  | some spk => (match Keyring.getNameFromKey ks (Keyring.encodePk spk) with
+      | some n => some (Sum.inl n)
+      | none => some (Sum.inr (Keyring.encodePk spk)))
+  | none => none
+
+/-- the end of `runDecrypt`: deliver what the sink holds, report -/
+def decryptFinish (w : World) (outf : Option Str) (ks : List Keyring.Key) (r : Res × Src × Snk × Option Bytes) : Outcome :=
+  if r.1 = .ok then
+    { exit := 0, world := (deliver w outf r.2.2.1).1, stdout := (deliver w outf r.2.2.1).2, sender := senderOf ks r.2.2.2 }
+  else { exit := 1, world := (deliver w outf r.2.2.1).1, stdout := (deliver w outf r.2.2.1).2, err := some (.crypto r.1) }
+
+/-- the end of the three other stream commands -/
+def streamFinish (w : World) (outf : Option Str) (r : Res × Src × Snk) : Outcome :=
+  if r.1 = .ok then { exit := 0, world := (deliver w outf r.2.2).1, stdout := (deliver w outf r.2.2).2 }
+  else { exit := 1, world := (deliver w outf r.2.2).1, stdout := (deliver w outf r.2.2).2, err := some (.crypto r.1) }
+
+/-- `runDecrypt` once the input, the keyring and the key are there -/
+theorem runDecrypt_path {P : Prims} {w : World} {inf : Option Str} {to : Str} {outf kr : Option Str} {e : Bool}
+    {input : Bytes} {ks : List Keyring.Key} {sk pk : Bytes}
+    (hsf : sameFile inf outf = false) (hi : openInput w inf = .ok input) (hk : openKeyring w kr = .ok ks)
+    (hu : unlockNamed w ks to e = .ok (sk, pk)) :
+    runDecrypt P w inf to outf kr e = decryptFinish w outf ks (keyDecryptIO P sk pk { inp := input } {}) := by
+  simp only [runDecrypt, hsf, hi, hk, hu, Bool.false_eq_true, if_false, decryptFinish]
+  generalize keyDecryptIO P sk pk { inp := input } {} = r
+  obtain ⟨res, s, k, snd⟩ := r
+  simp only
+  generalize deliver w outf k = d
+  obtain ⟨w', out⟩ := d
+  cases snd <;> rfl
+
+/-- **shape of `runDecrypt`**: an early failure that returns the world as it was, or the cryptographic call -/
+theorem runDecrypt_spec (P : Prims) (w : World) (inf : Option Str) (to : Str) (outf kr : Option Str) (e : Bool) :
+    (∃ c, c ∈ earlyCauses ∧ runDecrypt P w inf to outf kr e = fail w c) ∨
+    (∃ input ks sk pk, sameFile inf outf = false ∧ openInput w inf = .ok input ∧ openKeyring w kr = .ok ks ∧
+      unlockNamed w ks to e = .ok (sk, pk) ∧
+      runDecrypt P w inf to outf kr e = decryptFinish w outf ks (keyDecryptIO P sk pk { inp := input } {})) := by
+  cases hsf : sameFile inf outf with
+  | true => left; exact ⟨.sameFile, by simp [earlyCauses], by simp [runDecrypt, hsf]⟩
+  | false =>
+    cases hi : openInput w inf with
+    | error c =>
+      left; refine ⟨c, ?_, by simp [runDecrypt, hsf, hi]⟩
+      rw [openInput_err hi]; simp [earlyCauses]
+    | ok input =>
+      cases hk : openKeyring w kr with
+      | error c =>
+        left; refine ⟨c, ?_, by simp [runDecrypt, hsf, hi, hk]⟩
+        rcases openKeyring_err hk with h | h | h | h <;> simp [h, earlyCauses]
+      | ok ks =>
+        cases hu : unlockNamed w ks to e with
+        | error c =>
+          left; refine ⟨c, ?_, by simp [runDecrypt, hsf, hi, hk, hu]⟩
+          rcases unlockNamed_err hu with h | h | h | h | h <;> simp [h, earlyCauses]
+        | ok kp =>
+          obtain ⟨sk, pk⟩ := kp
+          right
+          exact ⟨input, ks, sk, pk, rfl, rfl, rfl, hu, runDecrypt_path hsf hi hk hu⟩
+
+theorem streamFinish_eq (w : World) (outf : Option Str) (res : Res) (s : Src) (k : Snk) :
+    (match deliver w outf k with
+      | (w', out) =>
+        if res = .ok then ({ exit := 0, world := w', stdout := out } : Outcome)
+        else { exit := 1, world := w', stdout := out, err := some (.crypto res) }) = streamFinish w outf (res, s, k) := by
+  simp only [streamFinish]
+  generalize deliver w outf k = d
+  obtain ⟨w', out⟩ := d
+  rfl
+
+/-- `runPassDecrypt` once the input and the password are there -/
+theorem runPassDecrypt_path {P : Prims} {w : World} {inf outf : Option Str} {e : Bool} {input pw : Bytes}
+    (hsf : sameFile inf outf = false) (hi : openInput w inf = .ok input) (hp : askPass w e = .ok pw) :
+    runPassDecrypt P w inf outf e = streamFinish w outf (passDecryptIO P pw { inp := input } {}) := by
+  simp only [runPassDecrypt, hsf, hi, hp, Bool.false_eq_true, if_false]
+  generalize passDecryptIO P pw { inp := input } {} = r
+  obtain ⟨res, s, k⟩ := r
+  exact streamFinish_eq w outf res s k
+
+theorem runPassDecrypt_spec (P : Prims) (w : World) (inf outf : Option Str) (e : Bool) :
+    (∃ c, c ∈ earlyCauses ∧ runPassDecrypt P w inf outf e = fail w c) ∨
+    (∃ input pw, sameFile inf outf = false ∧ openInput w inf = .ok input ∧ askPass w e = .ok pw ∧
+      runPassDecrypt P w inf outf e = streamFinish w outf (passDecryptIO P pw { inp := input } {})) := by
+  cases hsf : sameFile inf outf with
+  | true => left; exact ⟨.sameFile, by simp [earlyCauses], by simp [runPassDecrypt, hsf]⟩
+  | false =>
+    cases hi : openInput w inf with
+    | error c =>
+      left; refine ⟨c, ?_, by simp [runPassDecrypt, hsf, hi]⟩
+      rw [openInput_err hi]; simp [earlyCauses]
+    | ok input =>
+      cases hp : askPass w e with
+      | error c =>
+        left; refine ⟨c, ?_, by simp [runPassDecrypt, hsf, hi, hp]⟩
+        rw [askPass_err hp]; simp [earlyCauses]
+      | ok pw => right; exact ⟨input, pw, rfl, rfl, rfl, runPassDecrypt_path hsf hi hp⟩
+
+/-- `runPassEncrypt` once the input and the password are there -/
+theorem runPassEncrypt_path {P : Prims} {rnd : Rand} {w : World} {inf outf : Option Str} {e : Bool} {input pw : Bytes}
+    (hsf : sameFile inf outf = false) (hi : openInput w inf = .ok input) (hp : askPass w e = .ok pw) :
+    runPassEncrypt P rnd w inf outf e = streamFinish w outf (passEncryptIO P pw rnd.a { inp := input } {}) := by
+  simp only [runPassEncrypt, hsf, hi, hp, Bool.false_eq_true, if_false]
+  generalize passEncryptIO P pw rnd.a { inp := input } {} = r
+  obtain ⟨res, s, k⟩ := r
+  exact streamFinish_eq w outf res s k
+
+theorem runPassEncrypt_spec (P : Prims) (rnd : Rand) (w : World) (inf outf : Option Str) (e : Bool) :
+    (∃ c, c ∈ earlyCauses ∧ runPassEncrypt P rnd w inf outf e = fail w c) ∨
+    (∃ input pw, sameFile inf outf = false ∧ openInput w inf = .ok input ∧ askPass w e = .ok pw ∧
+      runPassEncrypt P rnd w inf outf e = streamFinish w outf (passEncryptIO P pw rnd.a { inp := input } {})) := by
+  cases hsf : sameFile inf outf with
+  | true => left; exact ⟨.sameFile, by simp [earlyCauses], by simp [runPassEncrypt, hsf]⟩
+  | false =>
+    cases hi : openInput w inf with
+    | error c =>
+      left; refine ⟨c, ?_, by simp [runPassEncrypt, hsf, hi]⟩
+      rw [openInput_err hi]; simp [earlyCauses]
+    | ok input =>
+      cases hp : askPass w e with
+      | error c =>
+        left; refine ⟨c, ?_, by simp [runPassEncrypt, hsf, hi, hp]⟩
+        rw [askPass_err hp]; simp [earlyCauses]
+      | ok pw => right; exact ⟨input, pw, rfl, rfl, rfl, runPassEncrypt_path hsf hi hp⟩
+
+/-- `runEncrypt` once everything it needs is there -/
+theorem runEncrypt_path {P : Prims} {rnd : Rand} {w : World} {inf : Option Str} {to fr : Str} {outf kr : Option Str} {e : Bool}
+    {input : Bytes} {ks : List Keyring.Key} {rkey : Keyring.Key} {rpk sk spk epk : Bytes}
+    (hsf : sameFile inf outf = false) (hi : openInput w inf = .ok input) (hk : openKeyring w kr = .ok ks)
+    (hg : Keyring.getKey ks to = some rkey) (hd : Keyring.decodePk rkey.pk = .ok rpk)
+    (hu : unlockNamed w ks fr e = .ok (sk, spk)) (he : P.pub rnd.b = some epk) :
+    runEncrypt P rnd w inf to fr outf kr e =
+      streamFinish w outf (keyEncryptIO P sk spk rpk rnd.b epk rnd.a { inp := input } {}) := by
+  simp only [runEncrypt, hsf, hi, hk, hg, hd, hu, he, Bool.false_eq_true, if_false]
+  generalize keyEncryptIO P sk spk rpk rnd.b epk rnd.a { inp := input } {} = r
+  obtain ⟨res, s, k⟩ := r
+  exact streamFinish_eq w outf res s k
+
+theorem runEncrypt_spec (P : Prims) (rnd : Rand) (w : World) (inf : Option Str) (to fr : Str) (outf kr : Option Str) (e : Bool) :
+    (∃ c, (c ∈ earlyCauses ∨ (c = .crypto .other ∧ P.pub rnd.b = none)) ∧ runEncrypt P rnd w inf to fr outf kr e = fail w c) ∨
+    (∃ input ks rkey rpk sk spk epk, sameFile inf outf = false ∧ openInput w inf = .ok input ∧ openKeyring w kr = .ok ks ∧
+      Keyring.getKey ks to = some rkey ∧ Keyring.decodePk rkey.pk = .ok rpk ∧ unlockNamed w ks fr e = .ok (sk, spk) ∧
+      P.pub rnd.b = some epk ∧
+      runEncrypt P rnd w inf to fr outf kr e =
+        streamFinish w outf (keyEncryptIO P sk spk rpk rnd.b epk rnd.a { inp := input } {})) := by
+  cases hsf : sameFile inf outf with
+  | true => left; exact ⟨.sameFile, by simp [earlyCauses], by simp [runEncrypt, hsf]⟩
+  | false =>
+    cases hi : openInput w inf with
+    | error c =>
+      left; refine ⟨c, Or.inl ?_, by simp [runEncrypt, hsf, hi]⟩
+      rw [openInput_err hi]; simp [earlyCauses]
+    | ok input =>
+      cases hk : openKeyring w kr with
+      | error c =>
+        left; refine ⟨c, Or.inl ?_, by simp [runEncrypt, hsf, hi, hk]⟩
+        rcases openKeyring_err hk with h | h | h | h <;> simp [h, earlyCauses]
+      | ok ks =>
+        cases hg : Keyring.getKey ks to with
+        | none => left; exact ⟨.keyNotFound, Or.inl (by simp [earlyCauses]), by simp [runEncrypt, hsf, hi, hk, hg]⟩
+        | some rkey =>
+          cases hd : Keyring.decodePk rkey.pk with
+          | error _ => left; exact ⟨.pkDecode, Or.inl (by simp [earlyCauses]), by simp [runEncrypt, hsf, hi, hk, hg, hd]⟩
+          | ok rpk =>
+            cases hu : unlockNamed w ks fr e with
+            | error c =>
+              left; refine ⟨c, Or.inl ?_, by simp [runEncrypt, hsf, hi, hk, hg, hd, hu]⟩
+              rcases unlockNamed_err hu with h | h | h | h | h <;> simp [h, earlyCauses]
+            | ok kp =>
+              obtain ⟨sk, spk⟩ := kp
+              cases he : P.pub rnd.b with
+              | none => left; exact ⟨.crypto .other, Or.inr ⟨rfl, rfl⟩, by simp [runEncrypt, hsf, hi, hk, hg, hd, hu, he]⟩
+              | some epk =>
+                right
+                exact ⟨input, ks, rkey, rpk, sk, spk, epk, rfl, rfl, rfl, hg, hd, hu, rfl,
+                  runEncrypt_path hsf hi hk hg hd hu he⟩
+
+end Cli
 end Kestrel
